@@ -110,6 +110,14 @@ Theorem C06_shared_node_panics :
   forall b a1 a2 a3 id, panic (run_acts b (a1 ++ AEnter id :: a2 ++ AEnter id :: a3)) <> None.
 Proof. exact dup_enter_panics. Qed.
 
+(* ... but a node shared as an Init field (FuncDecl.Type) is only recorded in the node map (AMapAt),
+   never looked up: two FuncDecls sharing one FuncType are not rejected (recorded finding
+   shared-funcdecl-type-not-rejected; with a non-nil field list the shared FieldList is entered
+   twice and caught) *)
+Example C06_shared_init_field_refuted :
+  panic (run_acts 1 [AEnter 1; AMapAt 7; AEnter 2; AMapAt 7]) = None.
+Proof. vm_compute. reflexivity. Qed.
+
 Theorem C06_distinct_nodes_do_not_panic :
   forall b acts, existsb is_panic_act acts = false -> NoDup (flat_map entered acts) ->
   panic (run_acts b acts) = None.
